@@ -366,12 +366,34 @@ def window_sort_key_rule(program, res, rule="C10-S4"):
             res.ok(rule, f"the window sort key `{unparse(by)}` derives from partition_by / order_by only")
 
 
+def _s5_executor_pruning(program, res):
+    """SQL generation threads `using` through every step, so unreported columns never reach the query.  The Pandas executor has no such
+    restriction: it computes every op and validates every column of the described tables; a value in an unreported column that makes one
+    of those computations raise turns the result into an exception."""
+    cls = program.cls("pandas_base", "PandasModelBase")
+    ev = cls.methods["eval"]
+    ts = cls.methods["_table_step"]
+    res.analysed(ev, ts)
+    prunes = any(isinstance(c, ast.Call) and isinstance(c.func, ast.Attribute) and c.func.attr in ("columns_used", "columns_used_from_sources")
+                 for m in (ev, ts, cls.methods["_eval_value_source"]) for c in ast.walk(m.node))
+    step_params = {p for name, m in cls.methods.items() if name.endswith("_step") for p in m.params()}
+    if prunes or "using" in step_params:
+        res.ok("C10-S5", "the Pandas executor restricts evaluation to the columns the pipeline uses")
+    else:
+        res.fail_at("C10-S5", ev, "pandas-evaluates-unreported-columns",
+                    "PandasModelBase.eval evaluates the whole DAG on every described column (no step takes a column restriction, columns_used() is never consulted): "
+                    "extend({'m': 'x + 1', 'junk': 'z.as_int64()'}).drop_columns(['junk']) reports x only, yet a NaN in z raises IntCastingNaNError on Pandas while "
+                    "SQLite (pruned query) returns the frame; natural_join / concat_rows type-check all common columns, also unreported ones")
+
+
 def run(program, res, tier):
     res.rule("C10-S1", "every column an evaluator reads flows positively and unconditionally into columns_used_from_sources")
     res.rule("C10-S2", "columns_used_implementation_ accumulates per node and recurses into every source")
     res.rule("C10-S3", "SQL generator prunes with the node's own columns_used_from_sources")
     res.rule("C10-S4", "Pandas window sort key holds partition and order columns only")
     window_sort_key_rule(program, res)
+    res.rule("C10-S5", "the Pandas executor computes only what the reported columns determine")
+    _s5_executor_pruning(program, res)
     res.assumptions.append("witness tables in sa/rules/c10.py (one token per column-bearing field; completeness of the table is checked against the constructors' column validations)")
     model = NodeModel(program)
     _s1(model, res)
